@@ -19,6 +19,19 @@ pub enum Obs {
     Err(u128),
 }
 
+// raw bits of any unsigned integer flavour (native or arbitrary-int): the glue does not pin the exact integer type of an
+// `Err(raw)` payload, only that it carries the raw bits
+pub trait RawBits {
+    fn raw_bits(self) -> u128;
+}
+macro_rules! raw_bits_impl {
+    ($($t:ty),*) => {$(
+        impl RawBits for $t { fn raw_bits(self) -> u128 { self as u128 } }
+        impl<const BITS: usize> RawBits for arbitrary_int::UInt<$t, BITS> { fn raw_bits(self) -> u128 { self.value() as u128 } }
+    )*};
+}
+raw_bits_impl!(u8, u16, u32, u64, u128);
+
 pub struct FM {
     pub name: &'static str,
     pub kind: &'static str,
